@@ -376,7 +376,7 @@ def check_requirement_kinds(ctx, R="C12.kinds"):
 
 
 def check(ctx):
-    check_requirement_kinds(ctx)
-    check_run_order(ctx)
-    check_scenario_step(ctx)
-    check_once_per_step(ctx)
+    ctx.run(check_requirement_kinds)
+    ctx.run(check_run_order)
+    ctx.run(check_scenario_step)
+    ctx.run(check_once_per_step)
